@@ -177,5 +177,97 @@ fn serde_roundtrip(tr: &mut Tr, args: &Args, rng: &mut Rng) {
             tr.ev(json!({"ev":"Serde","what":format!("{}[{}]",file,i),"reparsed":r2.is_ok(),"before":fv(before.iter()),"after":fv(after.iter())}));
         }
     }
+    // ---- group-contribution records: molecules (segments + bonds), segment tables, binary segment records
+    {
+        use feos_core::parameter::ParameterHetero;
+        let subs: Vec<ChemicalRecord> = serde_json::from_str(&std::fs::read_to_string(ppath("pcsaft/gc_substances.json")).unwrap()).unwrap();
+        let segs: Vec<SegmentRecord<GcPcSaftRecord>> = serde_json::from_str(&std::fs::read_to_string(ppath("pcsaft/sauer2014_hetero.json")).unwrap()).unwrap();
+        let segs2: Result<Vec<SegmentRecord<GcPcSaftRecord>>, _> = serde_json::from_str(&serde_json::to_string(&segs).unwrap());
+        let obs = |cr: &ChemicalRecord, table: &Vec<SegmentRecord<GcPcSaftRecord>>| -> Vec<f64> {
+            match guarded(std::panic::AssertUnwindSafe(|| GcPcSaftEosParameters::from_segments(vec![cr.clone()], table.clone(), None))) {
+                Ok(Ok(p)) => {
+                    let eos = Arc::new(GcPcSaft::new(Arc::new(p)));
+                    let rmax = eos.compute_max_density(&Array1::from_vec(vec![1.0]));
+                    [0.05, 0.6].iter().flat_map(|u| {
+                        match State::new_nvt(&eos, Temperature::from_reduced(400.0), Volume::from_reduced(1.0 / (u * rmax)), &Moles::from_reduced(Array1::from_vec(vec![1.0]))) {
+                            Ok(st) => vec![st.residual_helmholtz_energy().to_reduced(), st.pressure(feos_core::Contributions::Residual).to_reduced()],
+                            Err(_) => vec![f64::NAN, f64::NAN],
+                        }
+                    }).collect()
+                }
+                _ => vec![f64::INFINITY],   // the segment table does not cover this molecule: the same before and after
+            }
+        };
+        let step = if args.thorough { 1 } else { 3 };
+        for (i, cr) in subs.iter().enumerate().step_by(step) {
+            let s = serde_json::to_string(cr).unwrap();
+            let cr2: Result<ChemicalRecord, _> = serde_json::from_str(&s);
+            let before = obs(cr, &segs);
+            let after = cr2.as_ref().map(|c| obs(c, &segs)).unwrap_or_default();
+            tr.ev(json!({"ev":"Serde","what":format!("pcsaft/gc_substances.json[{}] (molecule)",i),"reparsed":cr2.is_ok(),"before":fv(before.iter()),"after":fv(after.iter())}));
+            if i % 9 == 0 {
+                if let Ok(t2) = &segs2 {
+                    let after = obs(cr, t2);
+                    tr.ev(json!({"ev":"Serde","what":format!("pcsaft/sauer2014_hetero.json (segment table) on gc_substances[{}]",i),"reparsed":true,"before":fv(before.iter()),"after":fv(after.iter())}));
+                }
+            }
+        }
+        if segs2.is_err() { tr.ev(json!({"ev":"Serde","what":"pcsaft/sauer2014_hetero.json (segment table)","reparsed":false,"before":[],"after":[]})); }
+    }
+    // ---- records of the other model families: the re-read record must give the same model
+    {
+        use feos::saftvrmie::{SaftVRMie, SaftVRMieParameters, SaftVRMieRecord};
+        use feos::saftvrqmie::{SaftVRQMie, SaftVRQMieParameters, SaftVRQMieRecord};
+        use feos::ideal_gas::{Dippr, DipprRecord, JobackRecord};
+        macro_rules! family {
+            ($file:expr, $rec:ty, $build:expr, $stepq:expr) => {{
+                let txt = std::fs::read_to_string(ppath($file)).unwrap();
+                let recs: Vec<PureRecord<$rec>> = serde_json::from_str(&txt).unwrap();
+                let step = if args.thorough { 1 } else { $stepq };
+                for (i, r) in recs.iter().enumerate().step_by(step) {
+                    let s = serde_json::to_string(r).unwrap();
+                    let r2: Result<PureRecord<$rec>, _> = serde_json::from_str(&s);
+                    let f: &dyn Fn(&PureRecord<$rec>) -> Vec<f64> = &$build;
+                    let before = guarded(std::panic::AssertUnwindSafe(|| f(r))).unwrap_or(vec![f64::INFINITY]);
+                    let after = r2.as_ref().map(|x| guarded(std::panic::AssertUnwindSafe(|| f(x))).unwrap_or(vec![f64::INFINITY])).unwrap_or_default();
+                    tr.ev(json!({"ev":"Serde","what":format!("{}[{}]",$file,i),"reparsed":r2.is_ok(),"before":fv(before.iter()),"after":fv(after.iter())}));
+                }
+            }};
+        }
+        fn eos_obs<E: Residual>(eos: Arc<E>, t: f64, mw: f64) -> Vec<f64> {
+            let rmax = eos.compute_max_density(&Array1::from_vec(vec![1.0]));
+            let mut v: Vec<f64> = [0.05, 0.6].iter().flat_map(|u| {
+                match State::new_nvt(&eos, Temperature::from_reduced(t), Volume::from_reduced(1.0 / (u * rmax)), &Moles::from_reduced(Array1::from_vec(vec![1.0]))) {
+                    Ok(st) => vec![st.residual_helmholtz_energy().to_reduced(), st.pressure(feos_core::Contributions::Residual).to_reduced()],
+                    Err(_) => vec![f64::NAN, f64::NAN],
+                }
+            }).collect();
+            v.push(mw);
+            v
+        }
+        family!("saftvrmie/lafitte2013.json", SaftVRMieRecord, |r: &PureRecord<SaftVRMieRecord>| eos_obs(Arc::new(SaftVRMie::new(Arc::new(SaftVRMieParameters::new_pure(r.clone()).unwrap()))), 400.0, r.molarweight), 3);
+        for file in ["saftvrqmie/aasen2019.json", "saftvrqmie/aasen2019_fh2.json", "saftvrqmie/hammer2023.json"] {
+            family!(file, SaftVRQMieRecord, |r: &PureRecord<SaftVRQMieRecord>| eos_obs(Arc::new(SaftVRQMie::new(Arc::new(SaftVRQMieParameters::new_pure(r.clone()).unwrap()))), 40.0, r.molarweight), 2);
+        }
+        {
+            // joback1987.json is a segment table (group contributions): the re-read segment must carry the same numbers
+            let recs: Vec<SegmentRecord<JobackRecord>> = serde_json::from_str(&std::fs::read_to_string(ppath("ideal_gas/joback1987.json")).unwrap()).unwrap();
+            let nums = |r: &SegmentRecord<JobackRecord>| -> Vec<f64> {
+                let v = serde_json::to_value(&r.model_record).unwrap();
+                let mut out: Vec<f64> = v.as_object().map(|o| o.values().filter_map(|x| x.as_f64()).collect()).unwrap_or_default();
+                out.push(r.molarweight);
+                out
+            };
+            for (i, r) in recs.iter().enumerate().step_by(if args.thorough { 1 } else { 5 }) {
+                let r2: Result<SegmentRecord<JobackRecord>, _> = serde_json::from_str(&serde_json::to_string(r).unwrap());
+                let after = r2.as_ref().map(|x| nums(x)).unwrap_or_default();
+                tr.ev(json!({"ev":"Serde","what":format!("ideal_gas/joback1987.json[{}] (segment)",i),"reparsed":r2.is_ok(),"before":fv(nums(r).iter()),"after":fv(after.iter())}));
+            }
+        }
+        family!("ideal_gas/poling2000.json", DipprRecord, |r: &PureRecord<DipprRecord>| {
+            let j = Dippr::new_pure(r.clone()).unwrap();
+            [200.0, 450.0, 900.0].iter().map(|t| j.molar_isobaric_heat_capacity(*t * KELVIN, &Array1::from_vec(vec![1.0])).unwrap().convert_into(JOULE / MOL / KELVIN)).collect()
+        }, 25);
+    }
     let _ = rng;
 }
